@@ -135,6 +135,27 @@ SPECS += [
 ]
 
 
+# _check_loops / _check_loops_from_task: the depth-first search for a cycle of plain dependencies.  `visited_tasks` is a
+# dict of which only the keys matter (membership, insertion, deletion): a list of task numbers; `validated` a set, likewise.
+# In the scheduler's view `w` a task outside the WBS has no predecessors of its own (it is a pair of dates): the search ends there.
+SPECS += [
+    dict(file='schedule.py', cls=None, func='_check_loops_from_task', coq_name='src_check_loops_from_task', obj_type='nat',
+         state=('visited_tasks', 'validated'), keysets=('visited_tasks',),
+         params={'task': ('task', 'nat'), 'visited_tasks': ('visited_tasks', NATS), 'validated': ('validated', NATS)},
+         signature=[('w', '(list itask)'), ('visited_tasks', NATS), ('validated', NATS), ('task', 'nat')], ret='unit',
+         recursive=True, loops='fold', locals={'visited_tasks': NATS, 'validated': NATS},
+         static_attrs={'predecessors': ('(k_preds (gett w %s))', NATS)},
+         expr_rewrites={'task.id': ('${task}', 'nat')},
+         state_calls={'_check_loops_from_task': ('src_check_loops_from_task $F w', [0], ['nat'])},
+         state_args={'_check_loops_from_task': {'visited_tasks': 1, 'validated': 2}}),
+    dict(file='schedule.py', cls=None, func='_check_loops', coq_name='src_check_loops', obj_type='nat', loops='fold',
+         params={}, ignored_params=('project',), signature=[('w', '(list itask)')], ret='unit',
+         locals={'validated': NATS},
+         expr_rewrites={'project.tasks': ('(members w)', NATS)},
+         rebind_calls={'_check_loops_from_task': ('src_check_loops_from_task (S (length w)) w [] ${validated} $0',
+                                                  '((_, %validated), _)', ['validated'], [0], ['nat'], {1: '{}', 2: 'validated'})}),
+]
+
 # calc itself: the pre-checks, the reset of the summaries, one call of the pass per root (forward: in order; backward: by
 # descending index), the result.  `wbs.clone()` is the scheduler's own view of the WBS (`w` with the values `ds` - C10 is the
 # property about clone), `_check_loops` is not translated (it raises on dependency cycles only, which no WBS built through
